@@ -1209,9 +1209,9 @@ fn c19_world(t: &mut Tape, forced: Option<(usize, bool)>) -> RunOut {
         let header = m.auth.carrier == Carrier::Header;
         // which duplicated input; `accept` = the valid one sits where the documented rule selects
         let kinds: &[&str] = if header {
-            &["authorization", "hdr-param:Credential", "hdr-param:Signature", "hdr-param:SignedHeaders", "x-amz-date", "date-beside-x-amz-date", "x-amz-date-beside-date", "token", "both-carriers"]
+            &["authorization", "hdr-param:Credential", "hdr-param:Signature", "hdr-param:SignedHeaders", "x-amz-date", "date-beside-x-amz-date", "x-amz-date-beside-date", "token", "both-carriers", "query-token-beside-header-carrier"]
         } else {
-            &["qp:X-Amz-Credential", "qp:X-Amz-Signature", "qp:X-Amz-SignedHeaders", "qp:X-Amz-Date", "qp:X-Amz-Algorithm", "qp:X-Amz-Security-Token", "both-carriers", "qp-body:X-Amz-Date", "qp-body:X-Amz-Credential"]
+            &["qp:X-Amz-Credential", "qp:X-Amz-Signature", "qp:X-Amz-SignedHeaders", "qp:X-Amz-Date", "qp:X-Amz-Algorithm", "qp:X-Amz-Security-Token", "both-carriers", "qp-body:X-Amz-Date", "qp-body:X-Amz-Credential", "header-token-beside-query-carrier"]
         };
         let drawn_kind = t.below(kinds.len());
         let kind = kinds[forced.map(|f| f.0 % kinds.len()).unwrap_or(drawn_kind)];
@@ -1293,6 +1293,21 @@ fn c19_world(t: &mut Tape, forced: Option<(usize, bool)>) -> RunOut {
                     m.logical.headers.insert(ins, ("x-amz-security-token".into(), b"bogus-token".to_vec()));
                     accept = Some(!before);
                 }
+            }
+            "query-token-beside-header-carrier" => {
+                // the token of the authenticating carrier is the one that counts: a parameter
+                // named like the other carrier's token is an ordinary (signed) query parameter
+                m.logical.url_pairs.push((b"X-Amz-Security-Token".to_vec(), b"bogus-token".to_vec()));
+                accept = Some(true);
+            }
+            "header-token-beside-query-carrier" => {
+                let pos = if before {
+                    0
+                } else {
+                    m.logical.headers.len()
+                };
+                m.logical.headers.insert(pos, ("x-amz-security-token".into(), b"bogus-token".to_vec()));
+                accept = Some(true);
             }
             "both-carriers" => {
                 m.quirks.other_carrier = true;
